@@ -634,10 +634,17 @@ def run() -> int:
             rep.add_violation(Violation(PROP, keys, what, dict(base, est_seen=r["est"], **v)))
     if not rep.samples:
         rep.add_sample({"note": "no verified product expression in this run"})
+    from .. import history_runs
+
+    history_runs.run(rep, PROP)
     return rep.finish()
 
 
 def replay(payload: dict) -> int:
+    if payload.get("kind") == "history":
+        from .. import history_runs
+
+        return history_runs.replay(PROP, payload)
     g = GSpec.from_json(payload["graph"])
     ev = ev_from_json(payload["event"])
     domains = [(frozenset(S), frozenset(Z)) for S, Z in payload["domains"]]
